@@ -40,4 +40,10 @@ def fnvInit : UInt64 := 0xcbf29ce484222325
 def fnvByte (h : UInt64) (b : UInt8) : UInt64 := (h ^^^ b.toUInt64) * 0x100000001b3
 def fnvStr (h : UInt64) (s : String) : UInt64 := s.toUTF8.foldl fnvByte h
 
+def kv (s key : String) : Option Nat :=
+  if s.startsWith (key ++ "=") then (s.drop (key.length + 1)).toString.toNat? else none
+
+def kvs (s key : String) : Option String :=
+  if s.startsWith (key ++ "=") then some (s.drop (key.length + 1)).toString else none
+
 end SameVerif.Driver
